@@ -8,6 +8,7 @@ import (
 	"encoding/hex"
 	"fmt"
 	"os"
+	"runtime/pprof"
 	"sort"
 	"sync/atomic"
 	"time"
@@ -141,6 +142,16 @@ func main() {
 		run.Finish(nil, nil)
 	}
 	thorough := !run.Quick()
+	if pf := os.Getenv("VERIF_CPUPROFILE"); pf != "" {
+		if fh, err := os.Create(pf); err == nil {
+			pprof.StartCPUProfile(fh)
+			go func() {
+				time.Sleep(90 * time.Second)
+				pprof.StopCPUProfile()
+				fh.Close()
+			}()
+		}
+	}
 	phaseT := map[string]float64{}
 	mark := time.Now()
 	lap := func(name string) {
